@@ -604,3 +604,6 @@ PROPS["C12"] = {
     "quick": {"scale": 1, "shards": 16, "timeout_s": 1800},
     "thorough": {"scale": 6, "shards": 16, "timeout_s": 7200},
 }
+
+if "C12" in PROPS:
+    PROPS["C12"]["thorough"]["fuzz"] = {"targets": "^FuzzDecode_", "fuzztime": "30s"}
